@@ -403,6 +403,10 @@ func genC04(r *rand.Rand, tier string) []Case {
 		if i%10 == 0 {
 			maxLen = 300
 		}
+		if c.Direct {
+			// several blocks, and a partially filled last one
+			nrec, maxLen = 4+r.Intn(10), 1800
+		}
 		if tier == "thorough" && i%200 == 0 {
 			maxLen = 3 << 20
 			nrec = 1 + r.Intn(3)
@@ -441,6 +445,15 @@ func genC04(r *rand.Rand, tier string) []Case {
 		for j := 0; j < nrec+2; j++ {
 			c.ReadProg = append(c.ReadProg, r.Intn(2) == 0)
 		}
+		cases = append(cases, c)
+	}
+	// records of one mebibyte and more (buffer pools and copy shortcuts have size classes)
+	for k := 0; k < 2; k++ {
+		c := &c04Case{Comp: []int{0, 2}[k], WBuf: 4096, RBuf: 4096, SeekLen: 4096}
+		big := make([]byte, 1<<20+r.Intn(3))
+		r.Read(big)
+		c.Prog = []wOp{{Op: "write", Rec: []byte("small before")}, {Op: "write", Rec: big}, {Op: "write", Rec: []byte("small after")}}
+		c.ReadProg = []bool{true, true, true, true}
 		cases = append(cases, c)
 	}
 	// a payload that contains the complete image of a record (a record whose payload is itself a serialized record)
